@@ -135,7 +135,7 @@ def check_model(col, m, cname, fn, args_desc, args):
         col.violation(f'comment-lines-differ:{cname}.{fn}', 'comment lines differ after re-parse', wit)
         return
     # ... and both read the same through every public attribute (views, value properties, custom getters)
-    dv = valuestate.first_difference(valuestate.value_state(m), valuestate.value_state(g))
+    dv = valuestate.first_difference(valuestate.value_state(m, inline_comments=True), valuestate.value_state(g, inline_comments=True))
     col.count('value_state_comparisons')
     if dv:
         col.violation(f'value-state-differs:{dv[1]}.{dv[2]}:{fn}', f'{dv[0]}.{dv[2]} reads {str(dv[3])[:160]} on the constructed model, '
